@@ -1251,6 +1251,23 @@ def run(env, res):
         if still == 0:
             for i in timed_out[RETRY_MAX:]:
                 outs[i] = dict(outcome='skipped', pulls=None, maxlen=None)
+    # The cases with the signature of the (repaired) finding `nested-iterators-unlimited` run first, while 16 + 4 worker
+    # processes are starting: on a loaded machine one of them may miss the watchdog although it returns at once.  They
+    # are re-tried alone as well (three times the allowance; a tree that has the defect hangs in the first re-try, after
+    # which the others keep their verdict).
+    nested_to = [i for i, r in enumerate(outs) if r and r['outcome'] in ('timeout', 'worker-died')
+                 and allc[i].get('part') in ('S', 'E') and known_nested(allc[i])]
+    if nested_to:
+        w = Worker()
+        try:
+            for i in nested_to[:RETRY_MAX]:
+                r2 = w.ask(allc[i], timeout=3 * WATCHDOG)
+                if r2['outcome'] in ('timeout', 'worker-died'):
+                    break
+                outs[i] = r2
+        finally:
+            w.kill()
+    hist['nested_timeouts'] = len(nested_to)
     hist['pool_timeouts'] = len(timed_out)
     hist['pool_timeouts_retried_alone'] = retried
     hist['pool_timeouts_confirmed'] = still
